@@ -159,14 +159,23 @@ def hole_attr(e, defs=None):
 def check_printers(ctx):
     repo, ev = ctx.repo, ctx.ev
     shapes = {}
+    deferred = set()
     for c in I.all_registered(repo):
+        made = next((k for k in repo.mro(c) if "_pretty_print" in k.methods or ("_pretty_print" in k.attrs and k.attrs["_pretty_print"][0] is None)), None)
+        if made is not None and "_pretty_print" not in made.methods:
+            # the class body binds the printer by assignment (`_pretty_print = _make_printer(...)`): there is no text of a method to read;
+            # what it prints is judged by C17.T, which prints every instruction with this very attribute and parses the text back
+            if made.qualname not in deferred:
+                deferred.add(made.qualname)
+                ctx.note(f"{made.name}._pretty_print is made by `{src(made.attrs['_pretty_print'][1])[:60]}`; its output is judged by C17.T only")
+            continue
         po = I.shape_owner(repo, c, "_pretty_print")
         oo = I.shape_owner(repo, c, "operands")
         if po is None or oo is None:
             ctx.error("C17.P", f"{c.name}: _pretty_print/operands not found")
             continue
         shapes[(po.qualname, oo.qualname)] = (po, oo, c)
-    ctx.anchor("C17.P", "printer shapes", len(shapes), 16)
+    ctx.anchor("C17.P", "printer shapes", len(shapes) + len(deferred), 16)
     for (pq, oq), (po, oo, c) in sorted(shapes.items()):
         fn = po.methods["_pretty_print"]
         ctx.fn(pq + "._pretty_print")
